@@ -30,6 +30,10 @@ pub struct Scenario {
     pub keys: usize,
     pub pagesize: u64,
     pub num_pages: usize,
+    /// scripted scenario: the total order of actions (worker 0 = writer, 1.. = readers);
+    /// actions: "commit", "begin", "read", "close".  Empty = free exploration.
+    #[serde(default)]
+    pub script: Vec<(usize, String)>,
 }
 
 #[derive(Clone, Debug)]
@@ -195,6 +199,101 @@ fn c04_reader(db: DB, sc: Scenario, log: Log) -> Box<dyn FnOnce(Arc<Inner>) + Se
     })
 }
 
+// ---- scripted workers: a fixed total order of actions, driven by the global stage ----
+
+fn scripted_writer(db: DB, sc: Scenario, path: std::path::PathBuf, log: Log) -> Box<dyn FnOnce(Arc<Inner>) + Send> {
+    Box::new(move |g: Arc<Inner>| {
+        for (idx, (w, act)) in sc.script.iter().enumerate() {
+            if *w != 0 || act != "commit" {
+                continue;
+            }
+            g.wait_stage(idx as u64);
+            log.lock().unwrap().push(Ev::WriterBeginCall { seq: g.tick() });
+            let tx = match db.tx(true) {
+                Ok(t) => t,
+                Err(e) => {
+                    log.lock().unwrap().push(Ev::Panic { seq: g.tick(), msg: format!("writer begin failed: {}", e) });
+                    g.bump_stage();
+                    return;
+                }
+            };
+            let ts = tx.verif_tx_state();
+            log.lock().unwrap().push(Ev::WriterBeginRet { seq: g.tick(), tx_id: ts.tx_id, free: ts.free.clone() });
+            let c: usize;
+            {
+                let b = tx.get_bucket("d").unwrap();
+                c = b.get_kv("version").map(|kv| u64::from_be_bytes(kv.value().try_into().unwrap_or([0; 8]))).unwrap_or(0) as usize + 1;
+                b.put("version", (c as u64).to_be_bytes()).unwrap();
+                for i in 0..sc.keys {
+                    b.put(key(i), value(c, i, 90 + c)).unwrap();
+                }
+                if c % 2 == 0 {
+                    let _ = b.delete(key(c % sc.keys));
+                } else {
+                    b.put(key(100 + c), value(c, 100 + c, 40)).unwrap();
+                }
+            }
+            log.lock().unwrap().push(Ev::CommitCall { seq: g.tick(), n: c });
+            let r = tx.commit();
+            let seq = g.tick();
+            let reach = if r.is_ok() { reach_of_newest(&path, sc.pagesize) } else { None };
+            log.lock().unwrap().push(Ev::CommitRet { seq, n: c, ok: r.is_ok(), reach, err: r.err().map(|e| e.to_string()).unwrap_or_default() });
+            g.bump_stage();
+        }
+    })
+}
+
+fn scripted_reader(db: DB, sc: Scenario, me: usize, log: Log) -> Box<dyn FnOnce(Arc<Inner>) + Send> {
+    Box::new(move |g: Arc<Inner>| {
+        let mine: Vec<(usize, String)> = sc.script.iter().enumerate().filter(|(_, (w, _))| *w == me).map(|(i, (_, a))| (i, a.clone())).collect();
+        let r = util::catch(|| {
+            let mut tx = None;
+            for (idx, act) in &mine {
+                g.wait_stage(*idx as u64);
+                match act.as_str() {
+                    "begin" => {
+                        log.lock().unwrap().push(Ev::ReaderBeginCall { seq: g.tick() });
+                        let t = db.tx(false).expect("reader begin");
+                        let ts = t.verif_tx_state();
+                        log.lock().unwrap().push(Ev::ReaderBeginRet { seq: g.tick(), tx_id: ts.tx_id });
+                        let d = exec::dump_tx(&t);
+                        let seq = g.tick();
+                        match d {
+                            Ok(m) => log.lock().unwrap().push(Ev::ReaderDump { seq, digest: m.digest(), counter_ok: None, detail: String::new() }),
+                            Err(e) => log.lock().unwrap().push(Ev::ReaderDump { seq, digest: 0, counter_ok: None, detail: e }),
+                        }
+                        tx = Some(t);
+                    }
+                    "read" => {
+                        if let Some(t) = &tx {
+                            let d = exec::dump_tx(t);
+                            let seq = g.tick();
+                            match d {
+                                Ok(m) => log.lock().unwrap().push(Ev::ReaderDump { seq, digest: m.digest(), counter_ok: None, detail: String::new() }),
+                                Err(e) => log.lock().unwrap().push(Ev::ReaderDump { seq, digest: 0, counter_ok: None, detail: e }),
+                            }
+                        }
+                    }
+                    _ => {
+                        let close_seq = g.tick();
+                        drop(tx.take());
+                        log.lock().unwrap().push(Ev::ReaderClose { seq: close_seq });
+                    }
+                }
+                g.bump_stage();
+            }
+        });
+        if let Err(p) = r {
+            log.lock().unwrap().push(Ev::Panic { seq: g.tick(), msg: format!("reader panicked at {}:{}: {}", p.file, p.line, p.msg) });
+            log.lock().unwrap().push(Ev::ReaderClose { seq: g.tick() });
+            // let the script go on without this reader
+            for _ in 0..mine.len() {
+                g.bump_stage();
+            }
+        }
+    })
+}
+
 // ---- C09 workers -----------------------------------------------------------
 
 fn c09_writer(db: DB, sc: Scenario, w: usize, inside: Arc<AtomicI32>, log: Log) -> Box<dyn FnOnce(Arc<Inner>) + Send> {
@@ -320,7 +419,18 @@ fn execute(sc: &Scenario, mode: Mode, path: &std::path::Path, st: &mut St) -> Re
     let s0_reach = reach_of_newest(path, sc.pagesize);
     let inside = Arc::new(AtomicI32::new(0));
     let mut roles: Vec<&'static str> = Vec::new();
-    if is_c04 {
+    if is_c04 && !sc.script.is_empty() {
+        let l: Log = Arc::new(Mutex::new(Vec::new()));
+        logs.push(l.clone());
+        roles.push("writer");
+        workers.push(scripted_writer(db.clone(), sc.clone(), path.to_path_buf(), l));
+        for r in 1..=sc.readers {
+            let l: Log = Arc::new(Mutex::new(Vec::new()));
+            logs.push(l.clone());
+            roles.push("reader");
+            workers.push(scripted_reader(db.clone(), sc.clone(), r, l));
+        }
+    } else if is_c04 {
         for _ in 0..sc.writers.max(1) {
             let l: Log = Arc::new(Mutex::new(Vec::new()));
             logs.push(l.clone());
@@ -628,6 +738,58 @@ fn judge_c09(sc: &Scenario, all: &[(usize, Ev)], db: &DB, st: &mut St, viol: &mu
     }
 }
 
+/// Directed interleavings that need more context switches than the preemption bound allows:
+/// readers of different ages (and of the same age) closing in every order between commits.
+fn scripted_scenarios(base: &Scenario) -> Vec<Scenario> {
+    let mut v = Vec::new();
+    let s = |w: usize, a: &str| (w, a.to_string());
+    // three readers on snapshots 0, 1 and 3; they close in every order, two commits after each close
+    let orders: [[usize; 3]; 6] = [[1, 2, 3], [1, 3, 2], [2, 1, 3], [2, 3, 1], [3, 1, 2], [3, 2, 1]];
+    for o in orders.iter() {
+        let mut sc = vec![s(1, "begin"), s(0, "commit"), s(2, "begin"), s(0, "commit"), s(0, "commit"), s(3, "begin")];
+        let mut open = vec![1usize, 2, 3];
+        for r in o.iter() {
+            sc.push(s(*r, "close"));
+            open.retain(|x| x != r);
+            sc.push(s(0, "commit"));
+            sc.push(s(0, "commit"));
+            for x in &open {
+                sc.push(s(*x, "read"));
+            }
+            sc.push(s(0, "commit"));
+            for x in &open {
+                sc.push(s(*x, "read"));
+            }
+        }
+        let commits = sc.iter().filter(|x| x.1 == "commit").count();
+        v.push(Scenario { readers: 3, commits, script: sc, keys: 8, ..base.clone() });
+    }
+    // two (and three) readers of the SAME snapshot; one closes, the other must stay protected
+    for n in [2usize, 3] {
+        for first in 1..=n {
+            let mut sc = vec![s(0, "commit")];
+            for r in 1..=n {
+                sc.push(s(r, "begin"));
+            }
+            sc.push(s(first, "close"));
+            let open: Vec<usize> = (1..=n).filter(|x| *x != first).collect();
+            for _ in 0..3 {
+                sc.push(s(0, "commit"));
+                for x in &open {
+                    sc.push(s(*x, "read"));
+                }
+            }
+            for x in &open {
+                sc.push(s(*x, "close"));
+            }
+            sc.push(s(0, "commit"));
+            let commits = sc.iter().filter(|x| x.1 == "commit").count();
+            v.push(Scenario { readers: n, commits, script: sc, keys: 8, ..base.clone() });
+        }
+    }
+    v
+}
+
 pub fn scenarios(prop: &str, thorough: bool) -> Vec<Scenario> {
     let base = Scenario {
         property: prop.to_string(),
@@ -641,6 +803,7 @@ pub fn scenarios(prop: &str, thorough: bool) -> Vec<Scenario> {
         keys: 6,
         pagesize: 1024,
         num_pages: 64,
+        script: vec![],
     };
     if prop == "C04" {
         let mut v = vec![
@@ -658,6 +821,7 @@ pub fn scenarios(prop: &str, thorough: bool) -> Vec<Scenario> {
             v.push(Scenario { readers: 2, commits: 4, rereads: 1, keys: 14, ..base.clone() });
             v.push(Scenario { readers: 1, commits: 3, grow_at: 1, num_pages: 16, pagesize: 4096, ..base.clone() });
         }
+        v.extend(scripted_scenarios(&base));
         v
     } else {
         let b = Scenario { writers: 2, increments_per_writer: 2, readers: 1, rereads: 0, commits: 0, ..base.clone() };
@@ -759,6 +923,21 @@ pub fn run(ctx: &Ctx, prop: &str) -> Shard {
     let mut rng = Rng::new(ctx.shard_seed());
     let mut exhausted_all = true;
     for (si, sc) in scs.iter().enumerate() {
+        if !sc.script.is_empty() {
+            // a scripted interleaving: one run under the baton and a few free-running ones; split over the shards
+            if (si as u64) % ctx.nshards != ctx.shard {
+                continue;
+            }
+            for k in 0..4u64 {
+                let mode = if k == 0 { Mode::Baton(Strategy::Prefix(vec![])) } else { Mode::Free { seed: rng.next(), max_sleep_us: [0u64, 100, 1000][(k % 3) as usize] } };
+                match execute(sc, mode, &path, &mut st) {
+                    Ok(out) => handle(ctx, &mut shard, &mut st, sc, &out, "scripted", serde_json::json!({"kind": "schedule", "scenario": sc, "strategy": if k == 0 { "prefix" } else { "free" }, "choices": [], "seed": 1})),
+                    Err(e) => shard.inconclusive(e),
+                }
+            }
+            shard.count("scripted_interleavings_run", 1);
+            continue;
+        }
         // ---- bounded-preemption DFS; the first-level children are split over the shards
         let mut stack: std::collections::VecDeque<Vec<usize>> = std::collections::VecDeque::from(vec![vec![]]);
         let mut executed = 0u64;
